@@ -70,7 +70,7 @@ MUTANTS = [
      "        if len(self.queue) > 1 and self.queue[-1].send_before > now:"),
     ("c12-tc-delay-short", "C12", "_listener.py", "_TC_DELAY_RANDOM_INTERVAL = (400, 500)", "_TC_DELAY_RANDOM_INTERVAL = (200, 300)"),
     ("c13-known-answers-until-expired", "C13", "_services/browser.py",
-     "            if not record.is_stale(now_millis)\n", "            if not record.is_expired(now_millis)\n"),
+     "            if not record.is_stale(now_millis) and", "            if not record.is_expired(now_millis) and"),
     ("c13-history-99ms", "C13", "const.py", "_DUPLICATE_QUESTION_INTERVAL = 999", "_DUPLICATE_QUESTION_INTERVAL = 99"),
     ("c14-tc-on-responses", "C14", "_protocol/outgoing.py",
      "            if has_more_to_add and self.is_query():", "            if has_more_to_add:"),
